@@ -105,6 +105,24 @@ def run_impl_history(hist, dtype):
     with np.errstate(all="ignore"):
         df["results_normalized_margin"] = np.nan_to_num(df["results_margin"] / df["results_weights"], nan=0, posinf=0, neginf=0)
     nm = [float(x) for x in df["results_normalized_margin"]]
+    if dtype == "handler":
+        # the whole path of the handler: versions come from its (here: in-memory) version store, get_versioned_results adds the derived
+        # columns and orders the versions, compute_versioned_margin_estimate works on what get_versioned_results left on the object
+        raw = pd.DataFrame(hist)
+        raw["postal_code"] = "AA"
+        raw["geographic_unit_fips"] = "u1"
+        raw["last_modified"] = pd.date_range("2030-11-05 19:00", periods=len(raw), freq="10min", tz="America/New_York")
+        h = VersionedDataHandler("2099-11-03_USA_G", "S", "county", estimands=["margin"])
+
+        class Store:
+            def get(self, path, sample):
+                return raw.copy()
+
+        h.s3_client = Store()
+        with np.errstate(all="ignore"):
+            h.get_versioned_results()
+            res = h.compute_versioned_margin_estimate()
+        return nm, res.to_dict("records")
     h = object.__new__(VersionedDataHandler)
     with np.errstate(all="ignore"):
         res = h.compute_versioned_margin_estimate(data=df.copy())
@@ -204,7 +222,7 @@ def run(chk):
                         "not exercised by the correspondence runs because the surrounding function needs the S3 version store"]
     n = 160 if chk.tier == "quick" else 4000
     rng = random.Random(chk.seed * 271 + 17)
-    jobs = [(rng.randint(0, 2**31), KINDS[i % len(KINDS)], ["int", "float"][(i // len(KINDS)) % 2]) for i in range(n)]
+    jobs = [(rng.randint(0, 2**31), KINDS[i % len(KINDS)], ["int", "float", "handler"][(i // len(KINDS)) % 3]) for i in range(n)]
     outs = core.pmap(worker, jobs, chunksize=4)
     exprs = [o["expr"] for o in outs if o["ok"]]
     res, errs = core.coq_eval("C17", IMPORTS, exprs, shard=40)
